@@ -301,14 +301,18 @@ def backward_pass(ctx, world):
             "the same vjp function evaluated again after an evaluation that raised half-way (stale cotangents are added to the next result), or evaluated re-entrantly",
         )
         return
-    ok = len(init.keys) == 1 and isinstance(init.keys[0], ast.Name) and init.keys[0].id == endp and isinstance(init.values[0], ast.Tuple) and len(init.values[0].elts) == 2
+    # the table's value when the main loop is entered (a display, or an empty display plus stores: same term)
+    rt0, syms0, m0_, node0_, sc0 = eval_function(world, CORE, "backward_pass")
+    at_entry = sc0.lookup(og)
+    at_entry = at_entry.init if at_entry is not None and at_entry.op == "loop" else None
+    ok = at_entry is not None and at_entry.op == "dict" and not at_entry.get("dstar") and len(at_entry.items) == 1 and at_entry.items[0][0] is syms0[endp]
     if ok:
-        v = init.values[0].elts
-        ok = isinstance(v[0], ast.Name) and v[0].id == gp and isinstance(v[1], ast.Constant) and v[1].value is False
+        v = at_entry.items[0][1]
+        ok = v.op == "tuple" and len(v.elts) == 2 and v.elts[0] is syms0[gp] and v.elts[1].op == "const" and v.elts[1].value is False
     if ok:
         ctx.ob("A9.proto", "backward_pass: user cotangent enters as (g, False): never mutated", True, loc)
     else:
-        ctx.fail("A9.proto", "backward_pass:init", f"{q}:init-flag", loc, f"outgrads is not initialised as {{end_node: (g, False)}} (found {norm_text(init)})", "a function that returns its input (or an input-aliasing view) twice added: the caller's cotangent array g is modified in place")
+        ctx.fail("A9.proto", "backward_pass:init", f"{q}:init-flag", loc, f"outgrads is not initialised as {{end_node: (g, False)}} (found {str(at_entry)[:80] if at_entry is not None else norm_text(init)})", "a function that returns its input (or an input-aliasing view) twice added: the caller's cotangent array g is modified in place")
     loops = [st for st in fn.body if isinstance(st, ast.For)]
     main = None
     for lp in loops:
@@ -974,11 +978,14 @@ def _fresh_at(world, mod, fnode, name, params, local_defs, site, fq):
     # designated accumulators
     if last == "_mut_add" and fnode.args.args and len(fnode.args.args) > 1 and name == fnode.args.args[1].arg:
         return True, "VSpace._mut_add's accumulator operand (owned by the add_outgrads protocol, A9.proto)"
-    if last == "mut_add" and isinstance(getattr(fnode, "_parent", None), ast.FunctionDef) and fnode.args.args and name == fnode.args.args[0].arg:
+    if isinstance(fnode, ast.FunctionDef) and isinstance(getattr(fnode, "_parent", None), ast.FunctionDef) and fnode.args.args and name == fnode.args.args[0].arg:
         # closure handed to SparseObject(vs, mut_add)
         outer = fnode._parent
         for x in ast.walk(outer):
-            if isinstance(x, ast.Call) and isinstance(x.func, ast.Name) and x.func.id == "SparseObject" and any(isinstance(a, ast.Name) and a.id == fnode.name for a in x.args):
+            if not (isinstance(x, ast.Call) and isinstance(x.func, (ast.Name, ast.Attribute))):
+                continue
+            rr_ = world.repo.resolve_expr(mod, x.func)
+            if rr_ is not None and rr_.qual == "autograd.core.SparseObject" and any(isinstance(a, ast.Name) and a.id == fnode.name for a in list(x.args) + [k.value for k in x.keywords]):
                 return True, "accumulator of a SparseObject.mut_add closure (owned by the sparse_add protocol, A9.proto)"
     if name in params:
         if isinstance(site, ast.AugAssign) and isinstance(site.target, ast.Name) and _int_evidence(fnode, name):
@@ -1428,21 +1435,35 @@ def raise_discipline(ctx, world):
         else:
             m, fn = world.repo.find_def(modname, path)
         loc = loc_of(m, fn)
+        # the lookup may sit in a helper that is handed the table (rule = _rule_for(primitive_vjps, fun, ...)): such
+        # helpers are part of the lookup path, under the name of the parameter that receives the table
+        scopes = [(fn, table)]
+        for x in ast.walk(fn):
+            if isinstance(x, ast.Call) and isinstance(x.func, (ast.Name, ast.Attribute)):
+                hr = world.repo.resolve_expr(m, x.func)
+                if hr is not None and hr.kind == "repo" and isinstance(hr.node, ast.FunctionDef) and not hr.node.decorator_list and hr.node is not fn:
+                    hp = [a_.arg for a_ in hr.node.args.posonlyargs + hr.node.args.args]
+                    nm_of = lambda b_: b_.id if isinstance(b_, ast.Name) else (b_.attr if isinstance(b_, ast.Attribute) else None)
+                    for i_, a_ in enumerate(x.args):
+                        if nm_of(a_) == table and i_ < len(hp):
+                            scopes.append((hr.node, hp[i_]))
+                    for k_ in x.keywords:
+                        if k_.arg in hp and nm_of(k_.value) == table:
+                            scopes.append((hr.node, k_.arg))
         # 1. lookups by indexing
         lookups = []
         defaulting = []
-        for x in ast.walk(fn):
-            if _encl(x) is not fn and not (isinstance(x, ast.Subscript) and False):
-                pass
+        for fn_s, table_s in scopes:
+          for x in ast.walk(fn_s):
             if isinstance(x, ast.Subscript) and isinstance(x.ctx, ast.Load):
                 base = x.value
                 nm = base.id if isinstance(base, ast.Name) else (base.attr if isinstance(base, ast.Attribute) else None)
-                if nm == table:
+                if nm == table_s:
                     lookups.append(x)
             if isinstance(x, ast.Call) and isinstance(x.func, ast.Attribute) and x.func.attr in ("get", "setdefault", "pop"):
                 base = x.func.value
                 nm = base.id if isinstance(base, ast.Name) else (base.attr if isinstance(base, ast.Attribute) else None)
-                if nm == table:
+                if nm == table_s:
                     defaulting.append(x)
         n += 1
         if defaulting:
@@ -1452,7 +1473,7 @@ def raise_discipline(ctx, world):
         else:
             ctx.fail("A6.raise", f"{q}:lookup", f"{q}:no-lookup", loc, f"no indexing lookup of {table} found", "a missing rule")
         # 2. handlers end in raise
-        for x in ast.walk(fn):
+        for x in [y for fn_s, _t in scopes for y in ast.walk(fn_s)]:
             if isinstance(x, ast.Try):
                 for h in x.handlers:
                     n += 1
